@@ -66,6 +66,7 @@ func VH_C09_decision() {
 // resolveDirty: hot journal without a RESERVED lock => ErrHotJournal before the
 // header is interpreted; with a live RESERVED lock => reading proceeds (C07);
 // and this is decided anew on every transaction.
+//verif:prop C09,C20
 //verif:bounds journal state free before each of two transactions (length 28..200000); database header fixed and valid
 func VH_C09_every_txn() {
 	pg := vhHeaderPage(512, verifUint32(), verifUint32())
